@@ -706,6 +706,19 @@ impl<'tcx> Dumper<'tcx> {
                         Some(J::obj().put("array", J::Arr(out)).done())
                     }
                     ty::Array(..) | ty::Tuple(..) => self.read_value(pid, poff, *inner, depth + 1),
+                    ty::Str => {
+                        let lb = self.read_bytes(id, off + 8, 8)?;
+                        let mut n: usize = 0;
+                        for b in 0..8 {
+                            n |= (lb[b] as usize) << (8 * b);
+                        }
+                        if n > 65536 {
+                            return None;
+                        }
+                        let bytes = self.read_bytes(pid, poff, n)?;
+                        let st = std::str::from_utf8(&bytes).ok()?;
+                        Some(J::obj().put_s("str", st).done())
+                    }
                     _ => None,
                 }
             }
